@@ -16,6 +16,7 @@ RULES = {
     'R5': ('r05_atomic', 'ATOMIC: Model mutators validate before they commit'),
     'R6': ('r06_fresh', 'FRESH: nothing reachable from the loaded specification is mutated'),
     'R7': ('r07_copy', 'COPY: hand-written deep copies complete, independent, re-linked'),
+    'R8': ('r08_codec', 'CODEC: writer and reader tables of the dict codecs agree'),
 }
 
 
@@ -170,6 +171,19 @@ _p('C05', 'The instance model stays coherent under any history of edits',
             ('R4', 'Model.add_asset'), ('R4', 'Model.add_attacker'), ('R5', 'Model.add_asset'),
             ('R5', 'Model.remove_asset_from_association')])
 
+_p('C07', 'Saving and loading a model preserves it (JSON and YAML)',
+   ['R8', 'R4'],
+   decided=['R8 i-ii: every key Model._to_dict (with asset/association/attacker_to_dict) writes is read by '
+            '_from_dict and every key read unguarded is written unconditionally',
+            'R8 iii: conversions invert per declared field type; asset / attacker ids that travelled as mapping '
+            'keys are int()-ed before use',
+            'R8 iv: serialised mappings are keyed by guarded-unique keys; R8 v: sibling serialisers agree; '
+            'R8 vi: .json/.yml/.yaml tables of save and load agree and dispatch to the right library',
+            'R4: explicit ids (0 included) are honoured by add_asset / add_attacker'],
+   undecided=['YAML/JSON library behaviour on exotic strings', 'value equality of the reloaded model'],
+   anchors=[('R8', 'Model._from_dict'), ('R8', 'Model._to_dict'), ('R8', 'Model.load_from_file'),
+            ('R4', 'Model.add_asset'), ('R4', 'Model.add_attacker')], floor=30)
+
 _p('C09', 'Attack-graph structure and lookup indexes stay consistent in any history',
    ['R1', 'R2', 'R3', 'R4', 'R7'],
    decided=['R1: no loop of the attack-graph layer removes from the list it walks',
@@ -189,6 +203,20 @@ _p('C09', 'Attack-graph structure and lookup indexes stay consistent in any hist
             ('R3', 'AttackGraph.add_attacker'), ('R3', 'AttackGraph.remove_attacker'),
             ('R3', 'AttackGraph.regenerate_graph'), ('R4', 'AttackGraph.add_node'),
             ('R4', 'AttackGraph.add_attacker'), ('R7', 'AttackGraph.__deepcopy__')])
+
+_p('C10', 'Saving and loading an attack graph preserves it',
+   ['R8', 'R4'],
+   decided=['R8 i-ii: all node / attacker keys written by to_dict are read by _from_dict (compromised_by is a '
+            'documented redundancy), unguarded reads are always written',
+            'R8 iii: str(float)<->float, str(bool)<->== \'True\', list<->list, ids used as mapping keys are '
+            're-int()ed (also inside add_attacker); each value lands in the field it came from',
+            'R8 iv: attack_steps keyed by unique full name, children/parents/entry points by unique node id',
+            'R8 vi: extension tables agree',
+            'R4: explicit node / attacker ids are honoured, duplicates rejected on the stored id'],
+   undecided=['value equality of the reloaded graph', 'file-library behaviour'],
+   anchors=[('R8', 'AttackGraph._from_dict'), ('R8', 'AttackGraphNode.to_dict'), ('R8', 'Attacker.to_dict'),
+            ('R8', 'AttackGraph.load_from_file'), ('R4', 'AttackGraph.add_attacker'),
+            ('R4', 'AttackGraph.add_node')], floor=40)
 
 _p('C11', 'Attackers and nodes always agree on what is compromised',
    ['R1', 'R2', 'R7'],
